@@ -20,6 +20,22 @@ Theorem C01_id_is_proxy_drawn :
 Proof. repeat split; reflexivity. Qed.
 Print Assumptions C01_id_is_proxy_drawn.
 
+(* the proxy starts no goroutine of its own: the body of a response is relayed to the client by that client's own
+   handler, and nothing is written to a client's connection after its handler has returned (net/http hands the
+   write buffer of a finished response to the next one) - the model's Post label is one step *)
+Theorem C01_relay_in_handler : serverGoroutines = [].
+Proof. reflexivity. Qed.
+Print Assumptions C01_relay_in_handler.
+
+(* ... and it reads the trailers of a response only when its relay of the body reached the end: when the client goes
+   away in the middle of a response the agent's upload handler may still be reading the rest of it, and net/http
+   stores the trailers into resp.Trailer from that other goroutine (concurrent map iteration and map write ends
+   the whole proxy, with every request in flight) *)
+Theorem C01_trailers_after_complete_relay :
+  frontendBeforeTrailers = ["_, err := io.Copy(w, resp.Body)"; "resp.Body.Close()"; "if err != nil { ...; return }"]%string.
+Proof. reflexivity. Qed.
+Print Assumptions C01_trailers_after_complete_relay.
+
 (* ... and that draw comes from a random generator seeded from the clock when the proxy is created, taken under the lock
    and hashed: distinct within one proxy life and, with overwhelming probability, across the lives of a restarted proxy.
    (inj_upto below is this uniqueness; a counter would satisfy it within one life but not across restarts, which the
